@@ -98,25 +98,28 @@ def run(ctx, rep):
            nontrivial=True, key="atom/canonical",
            witness=None if ok else "encoder can print the non-standard spelling %r (equivalent inputs give different symbols)" % w)
     # ---- L1 ring / branch tokens
+    import re as _re
+    shape = _re.compile(r"^\[\{\}[A-Za-z]+\{\}\]$")
     frag = None
     for q in ctx.cg.region(encf):
         g = ctx.db.funcs[q]
-        if g.module.name == encf.module.name and any("Ring" in t for _, t, _ in format_templates(ctx, g)):
+        if g.module.name == encf.module.name and sum(1 for _, t, _ in format_templates(ctx, g) if shape.match(t)) >= 2:
             frag = g
     if frag is None:
-        raise AnalysisError("ring/branch token templates not found in the encoder")
+        raise AnalysisError("ring/branch token templates ('[{}Name{}]') not found in the encoder")
     tables = {"Ring": set(ctx.fold.global_value("selfies.grammar_rules", "_PROCESS_RING_CACHE")),
               "Branch": set(ctx.fold.global_value("selfies.grammar_rules", "_PROCESS_BRANCH_CACHE"))}
-    seen_kinds = set()
+    allkeys = tables["Ring"] | tables["Branch"]
+    n_tmpl = 0
     for node, tmpl, args in format_templates(ctx, frag):
-        kind = "Ring" if "Ring" in tmpl else ("Branch" if "Branch" in tmpl else None)
-        if kind is None:
+        if not shape.match(tmpl):
             continue
-        seen_kinds.add(kind)
+        n_tmpl += 1
         fields = list(string.Formatter().parse(tmpl))
-        if len(args) != 2 or [f[1] for f in fields if f[1] is not None] != ["", ""]:
-            raise AnalysisError("unexpected %s token template %r" % (kind, tmpl))
         lits = [f[0] for f in fields]
+        kind = lits[1]
+        if len(args) != 2:
+            raise AnalysisError("unexpected token template %r" % (tmpl,))
         if not (isinstance(args[0], ast.Call) and isinstance(args[1], ast.Call) and unparse(args[1].func) == "len"):
             raise AnalysisError("%s token is not built from (prefix function, len(index symbols))" % kind)
         pre, g = prefix_language(ctx, frag, args[0])
@@ -127,13 +130,14 @@ def run(ctx, rep):
         if toks is None:
             rep.ob("L1", False, node, frag, construct="%s tokens" % kind, witness="the set of %s tokens the encoder can print is not finite" % kind)
             continue
-        missing = sorted(set(toks) - tables[kind])
+        table = tables.get(kind, allkeys)
+        missing = sorted(set(toks) - table)
         rep.ob("L1", not missing, node, frag, construct="%d %s tokens the encoder can print" % (len(toks), kind),
                how="each is a key of the decoder's %s table" % kind.lower(), nontrivial=True, key="%s/emit-in-accept" % kind.lower(),
                witness=None if not missing else "encoder can print %s, not in the decoder's table" % missing[:4])
         ctx.cache["enc_%s_tokens" % kind.lower()] = toks
-    if seen_kinds != {"Ring", "Branch"}:
-        raise AnalysisError("expected ring and branch token templates, found %s" % sorted(seen_kinds))
+    if n_tmpl < 2:
+        raise AnalysisError("expected ring and branch token templates")
     # index tokens: whatever get_selfies_from_index returns comes from INDEX_ALPHABET (C16/I5), all of which the decoder knows
     alpha = ctx.fold.global_value("selfies.constants", "INDEX_ALPHABET")
     bad = [s for s in alpha if not (dec["dfa"].accepts(s) or s in tables["Ring"] or s in tables["Branch"])]
